@@ -127,7 +127,18 @@ func (e *Engine) callStatic(st *State, fr *Frame, res ssa.Value, callee *ssa.Fun
 			e.usedExterns[name+" (havoc)"] = true
 		}
 	} else {
-		e.havocCalls[shortFn(callee)]++
+		eff := e.P.effectOf(callee)
+		e.havocCalls[shortFn(callee)+" ("+eff.String()+")"]++
+		if !eff.All {
+			for _, a := range args {
+				e.escape(st, a)
+			}
+			e.havocEffect(st, eff, why)
+			if rt := e.resultType(c); rt != nil {
+				e.bindResult(st, res, e.freshVal(st, "r", rt))
+			}
+			return nil, true
+		}
 	}
 	e.havocCall(st, res, c, args, why, full)
 	return nil, true
@@ -1181,6 +1192,20 @@ func (e *Engine) pureResult(st *State, name string, args []Val, rt types.Type, d
 			ref = true
 			terms = append(terms, a.T, a.X[0], a.X[1])
 			sorts = append(sorts, "Int", bvSort(64), bvSort(64))
+		case KStruct:
+			if a.Ty == nil {
+				return e.freshVal(st, "r."+name, rt)
+			}
+			ls := leaves(a.Ty)
+			cs := a.comps()
+			if len(ls) != len(cs) {
+				return e.freshVal(st, "r."+name, rt)
+			}
+			for i := range ls {
+				terms = append(terms, cs[i])
+				sorts = append(sorts, ls[i].Sort)
+			}
+			ref = true
 		default:
 			return e.freshVal(st, "r."+name, rt)
 		}
